@@ -321,7 +321,21 @@ pub fn gen_sched(cs: &mut ChoiceStream) -> SchedCfg {
         }
         _ => {}
     }
+    gen_pct(cs, &mut s, 5);
     s
+}
+
+/// In one run out of `one_in` the scheduler is PCT-style (priorities + up to 3 change points) instead of the
+/// sticky uniform one: a thread then runs until it blocks, and a low-priority thread only gets the gaps.
+pub fn gen_pct(cs: &mut ChoiceStream, s: &mut SchedCfg, one_in: u32) {
+    if cs.choose("pct", one_in) == one_in - 1 {
+        s.pct = true;
+        let d = cs.choose("pct_depth", 4);
+        let len = *pick(cs, "pct_len", &[300u32, 1500, 6000]);
+        for _ in 0..d {
+            s.pct_points.push(1 + cs.choose("pct_cp", len) as u64);
+        }
+    }
 }
 
 pub fn gen_net(cs: &mut ChoiceStream, g: &GenCfg) -> NetCfg {
